@@ -11,10 +11,12 @@ SCR="$(mktemp -d /tmp/dsim_seed.XXXXXX)"
 trap 'rm -rf "$SCR"' EXIT
 rsync -a --exclude .git --exclude __pycache__ /repo/ "$SCR/"
 ( cd "$SCR" && patch -p1 -s < "$DIR/patch.diff" ) || { echo "PATCH-FAILED"; exit 3; }
+if [ -z "${SEED_NO_TESTS:-}" ]; then
 T=$(cd "$SCR" && PYTHONPATH="$SCR" timeout 900 /venv/bin/python -m pytest -q -p no:cacheprovider --timeout=900 2>&1 | tail -1)
 echo "tests_with_change: $T"
 ( cd "$DIR" && PYTHONPATH="$SCR" timeout 300 /venv/bin/python demo.py >/dev/null 2>&1 ); echo "demo_with_change_exit: $?"
 ( cd "$DIR" && PYTHONPATH=/repo timeout 300 /venv/bin/python demo.py >/dev/null 2>&1 ); echo "demo_without_change_exit: $?"
+fi
 for c in $CHECKS; do
   out=$(cd "$VERIF" && DSIM_REPO="$SCR" ./check "$c" --tier quick --no-evidence ${SEED_ARGS:-} 2>&1); rc=$?
   cl=$(echo "$out" | grep "failing clauses" | sed 's/^ *//' | cut -c1-200)
